@@ -1,8 +1,16 @@
 #!/bin/bash
-# tools/seed_all.sh : apply every seeded change in turn and run the check(s) recorded as catching it; prints CAUGHT / MISSED.
+# tools/seed_all.sh [lanes] : apply every seeded change in turn (on scratch worktrees of /repo, several lanes side by side) and run
+# the check recorded as catching it; prints CAUGHT / MISSED per seed.  /repo itself is never modified.
 cd "$(dirname "$0")/.."
-for d in seeded/C*-m*; do
-  ids=$(/venv/bin/python -c "import json;print(' '.join(json.load(open('$d/meta.json'))['caught_by'][:1]))")
-  out=$(tools/seed_eval.sh $PWD/$d/patch.diff $ids 2>&1)
-  if echo "$out" | grep -q "^VIOLATION"; then echo "CAUGHT $d by $ids"; else echo "MISSED $d ($ids)"; echo "$out" | tail -2; fi
+lanes=${1:-3}
+for i in $(seq 1 $lanes); do git -C /repo worktree add -q --detach /tmp/seedlane_$i HEAD 2>/dev/null; done
+ls -d seeded/C*-*m* | awk -v n=$lanes '{print > ("/tmp/seedlane_list_" (NR % n + 1))}'
+for i in $(seq 1 $lanes); do
+  ( while read d; do
+      ids=$(/venv/bin/python -c "import json;print(' '.join(json.load(open('$d/meta.json'))['caught_by'][:1]))")
+      out=$(SEED_TREE=/tmp/seedlane_$i VERIF_NPROC=6 tools/seed_eval.sh $PWD/$d/patch.diff $ids 2>&1)
+      if echo "$out" | grep -q "^VIOLATION"; then echo "CAUGHT $d by $ids"; else echo "MISSED $d ($ids)"; echo "$out" | tail -2; fi
+    done < /tmp/seedlane_list_$i ) &
 done
+wait
+for i in $(seq 1 $lanes); do git -C /repo worktree remove --force /tmp/seedlane_$i; rm -f /tmp/seedlane_list_$i; done
